@@ -906,13 +906,43 @@ def c03(ck):
     ck.run_family(Family("session-malformed-debug", "ses", ses, oracle=oracle, shrink=core.shrink_ops_line(4), decisive=False,
                          project=lambda o: [(s_["r"], s_["text"], s_["cur"], s_["hist"], s_["calls"]) for s_ in (parse_steps(o) or [])] or o,
                          nontrivial=lambda c, o: True))
+    # derived command sets (code emitted by the proc-macros: parsers, help, completion), any buffer sizes, malformed bytes between the lines
+    declgen, sets = ensure_decls(ck)
+    dses = []
+    for k, s_ in enumerate(sets):
+        allv = declgen.all_names(s_)
+        for j in range(60 if thorough else 14):
+            ops = []
+            for _ in range(rng.choice([3, 6])):
+                r = rng.randrange(10)
+                if r < 4:
+                    line = declgen.rand_decl_line(rng, s_)
+                elif r < 5:
+                    line = "help"
+                elif r < 7 and allv:
+                    nm = declgen.q(rng.choice(allv))
+                    line = rng.choice(["help " + nm, nm + " -h", nm + " --help", nm])
+                else:
+                    line = None
+                if line is None:
+                    ops += gen.rand_session_ops(rng, rng.choice([3, 8]), api=True, malformed=True)
+                else:
+                    ops.append("b:" + gen.hx(line.encode("utf-8")))
+                    if rng.randrange(4) == 0:
+                        ops.append("b:09")
+                    ops.append("b:0d")
+            cap = rng.choice([0, 1, 2, 5, 9, 17, 33, 64, 120, 120, 120])
+            dses.append("%d %d %d d%d %s" % (cap, rng.choice([0, 1, 7, 32, 64]), rng.randrange(4), k, ";".join(ops)))
+    ck.run_family(Family("derived-session-malformed-debug", "ses", dses, oracle=oracle, shrink=core.shrink_ops_line(4), decisive=False,
+                         project=lambda o: [(s_["r"], s_["text"], s_["cur"], s_["hist"], s_["calls"]) for s_ in (parse_steps(o) or [])] or o,
+                         nontrivial=lambda c, o: True))
     if thorough:
         ck.run_family(Family("session-malformed-release", "ses", ses[:4000], oracle=oracle, shrink=core.shrink_ops_line(4), decisive=False, profile="release",
                              project=lambda o: [(s_["r"], s_["text"], s_["cur"], s_["hist"], s_["calls"]) for s_ in (parse_steps(o) or [])] or o,
                              nontrivial=lambda c, o: True))
     return ck.finish(trusted=TB_COMMON + ["rustc debug profile: overflow checks, debug_assert!, the standard library's UB-precondition checks (get_unchecked, copy_nonoverlapping, "
                      "from_raw_parts_mut, unwrap_unchecked, from_u32_unchecked); memory safety of the compiled Rust itself is a runtime fact the model cannot exhibit (partial by nature)"],
-                     rule="random sessions over arbitrary bytes 0..255 (malformed-weighted), all keys, Cli::write and set_prompt interleaved, command buffer and history buffer sizes 0..64 (small sizes "
+                     rule="random sessions over arbitrary bytes 0..255 (malformed-weighted), all keys, Cli::write (write_str, writeln_str, ufmt, core::fmt, write_title, write_list_element with any column width) and set_prompt interleaved, with the scripted handler and with generated derived command sets (parsers, help and completion emitted by the proc-macros; multi-byte names), command buffer and history buffer sizes 0..64 (small sizes "
                      "weighted); debug build with overflow and UB-precondition checks; every worker exit status inspected, every line validated as UTF-8; state also compared with the "
                      "checked-style model (None = panic site reached). Every case counts as non-trivial (distinct sessions)")
 
@@ -1225,6 +1255,12 @@ def c16(ck):
             ses.append(lines_to_session(k, lines, cap=100))
             nm = (declgen.visible_names(s_) or ["x"])[0]
             ses.append("30 32 1 d%d b:%s;b:09;b:0d;b:1b5b41" % (k, gen.hx(nm[:1].encode("utf-8"))))
+            # Tab on prefixes of names of HIDDEN groups (no feature may turn them into completion candidates), and on a few visible ones
+            vis_ = declgen.visible_names(s_)
+            hid_ = [x for x in declgen.all_names(s_) if x not in vis_]
+            for nm in hid_[:4] + vis_[1:3]:
+                for pre in {nm[:1], nm[:-1]} - {""}:
+                    ses.append("40 32 1 d%d b:%s;b:09;b:0d;b:1b5b41;b:0d" % (k, gen.hx(pre.encode("utf-8"))))
     base = core.run_engine(bins["hac"], "ses", ses)
 
     def uses(case):
